@@ -156,7 +156,7 @@ func runNyctTrips(c *Ctx) {
 			for _, in := range blk.Instrs {
 				st, isSt := in.(*ssa.Store)
 				if !isSt {
-					if call, isCall := in.(*ssa.Call); isCall && strings.HasSuffix(calleeName(call), ".setVehicleDescriptor") {
+					if call, isCall := in.(*ssa.Call); isCall && setsVehicleDescriptor(call) {
 						n++
 						if !hasGuard(gs, "+", "proto.HasExtension(", "E_NyctTripDescriptor") {
 							ok = false
@@ -304,7 +304,7 @@ func runNyctTrips(c *Ctx) {
 		for _, blk := range upd.Blocks {
 			for _, in := range blk.Instrs {
 				call, ok := in.(*ssa.Call)
-				if !ok || !strings.HasSuffix(calleeName(call), ".setVehicleDescriptor") {
+				if !ok || !setsVehicleDescriptor(call) {
 					continue
 				}
 				n++
@@ -342,7 +342,10 @@ func runNyctTrips(c *Ctx) {
 					continue
 				}
 				if set, subj, ok := c.membershipSet(ce.Cond); ok && ce.Val {
-					stations = set
+					stations = nil
+					for _, k := range set {
+						stations = append(stations, strings.Trim(k, "\""))
+					}
 					okTable = strings.Contains(b.bind(subj), "slice(proto:TripUpdate_StopTimeUpdate.StopId")
 				}
 			}
@@ -568,7 +571,7 @@ func checkSwapTable(st *ssa.Store) bool {
 		}
 		switch x := v.(type) {
 		case *ssa.Phi:
-			if x.Type().String() == "rune" || x.Type().String() == "int32" || x.Type().String() == "byte" || x.Type().String() == "uint8" {
+			if t := x.Type().String(); t == "rune" || t == "int32" || t == "byte" || t == "uint8" || t == "string" {
 				phi = x
 				return
 			}
@@ -595,6 +598,12 @@ func checkSwapTable(st *ssa.Store) bool {
 	pairs := map[int64]int64{}
 	for i, ed := range phi.Edges {
 		k, ok := constInt(ed)
+		if !ok {
+			// a one-character string constant
+			if sv, isS := constString(ed); isS && len(sv) == 1 {
+				k, ok = int64(sv[0]), true
+			}
+		}
 		if !ok {
 			return false
 		}
@@ -632,10 +641,13 @@ func runNyctAlerts(c *Ctx) {
 	if ua == nil || ue == nil || gp == nil || bm == nil {
 		return
 	}
-	// Y1: timetabled no-service table and its guard
-	keys, ok := c.mapLiteralKeys("nyctalerts", "map[proto.MercuryEntitySelector_Priority]bool")
-	wantKeys := []string{"MercuryEntitySelector_PRIORITY_NO_MIDDAY_SERVICE", "MercuryEntitySelector_PRIORITY_NO_OVERNIGHT_SERVICE", "MercuryEntitySelector_PRIORITY_NO_WEEKEND_SERVICE"}
-	c.Check(ok && strings.Join(keys, ",") == strings.Join(wantKeys, ","), "ALRT", "nyctalerts.timetabledNoServicePriorities", "timetabled no-service priorities", "-", strings.Join(keys, ","), "the table of timetabled no-service priorities is "+strings.Join(keys, ",")+" (documented: no midday / overnight / weekend service)")
+	// Y1: alerts are dropped only with the option set and for an entity whose Mercury priority is one of the three
+	// timetabled no-service priorities -- the set may be a map literal or a predicate function
+	var wantPrio []string
+	for _, n := range []string{"MercuryEntitySelector_PRIORITY_NO_MIDDAY_SERVICE", "MercuryEntitySelector_PRIORITY_NO_OVERNIGHT_SERVICE", "MercuryEntitySelector_PRIORITY_NO_WEEKEND_SERVICE"} {
+		wantPrio = append(wantPrio, strings.TrimPrefix(c.constOf("proto", n), "const:"))
+	}
+	sort.Strings(wantPrio)
 	fname := shortName(ua)
 	nSkip := 0
 	for _, blk := range ua.Blocks {
@@ -651,12 +663,24 @@ func runNyctAlerts(c *Ctx) {
 			continue
 		}
 		gs := guardStrings(b, blk)
-		if hasGuard(gs, "+", "updateElevatorAlert(") {
+		if hasGuard(gs, "+", "updateElevatorAlert(") || hasGuardClass(b, gs, "+", "(nyctalerts._,*string,*proto.Alert)→(bool)") {
 			continue // the elevator path
 		}
 		nSkip++
-		okG := hasGuard(gs, "+", "SkipTimetabledNoServiceAlerts") && hasGuard(gs, "+", "lookup(", "map[proto.MercuryEntitySelector_Priority]bool", "proto:Alert.InformedEntity")
-		c.Check(okG, "ALRT", fname, "alerts dropped exactly for timetabled no-service priorities with the option set", p.pos(blk.Instrs[0].Pos()), "return true dominated by opts.SkipTimetabledNoServiceAlerts and membership of the entity's priority in the table", "an alert can be dropped without the option being set or for a priority outside the timetabled no-service table")
+		okOpt := hasGuard(gs, "+", "SkipTimetabledNoServiceAlerts")
+		okSet := false
+		var got []string
+		for _, ce := range dominatingConds(blk) {
+			if ce.Composite || !ce.Val {
+				continue
+			}
+			if set, subj, ok := c.membershipSet(ce.Cond); ok {
+				got = set
+				sort.Strings(got)
+				okSet = strings.Join(got, ",") == strings.Join(wantPrio, ",") && strings.Contains(b.bind(subj), "proto:Alert.InformedEntity")
+			}
+		}
+		c.Check(okOpt && okSet, "ALRT", fname, "alerts dropped exactly for timetabled no-service priorities with the option set", p.pos(blk.Instrs[0].Pos()), "return true dominated by opts.SkipTimetabledNoServiceAlerts and membership of the entity's priority in {no midday, no overnight, no weekend service}", fmt.Sprintf("an alert can be dropped without the option being set or for a priority outside the timetabled no-service set (set found: %v, expected %v)", got, wantPrio))
 	}
 	if nSkip == 0 {
 		c.Violated("ALRT", fname, "timetabled no-service alerts can be skipped", p.pos(ua.Pos()), "no path drops timetabled no-service alerts")
@@ -940,16 +964,41 @@ func (c *Ctx) membershipSet(cond ssa.Value) ([]string, ssa.Value, bool) {
 		}
 		var keys []string
 		n := 0
+		// a package-level table: the map its initialiser builds
+		target := x.X
+		if ld, ok := x.X.(*ssa.UnOp); ok {
+			if g, ok := ld.X.(*ssa.Global); ok {
+				target = nil
+				for _, fn := range c.P.ModFns {
+					for _, b := range fn.Blocks {
+						for _, in := range b.Instrs {
+							if st, ok := in.(*ssa.Store); ok && st.Addr == ssa.Value(g) {
+								if target != nil {
+									return nil, nil, false // assigned more than once
+								}
+								target = st.Val
+							}
+						}
+					}
+				}
+				if target == nil {
+					return nil, nil, false
+				}
+			}
+		}
 		for _, fn := range c.P.ModFns {
 			for _, b := range fn.Blocks {
 				for _, in := range b.Instrs {
-					if mu, ok := in.(*ssa.MapUpdate); ok && (mu.Map == x.X || (types.Identical(mu.Map.Type(), x.X.Type()) && c.P.valueOrigins(mu.Map).intersects(c.P.valueOrigins(x.X)))) {
+					if mu, ok := in.(*ssa.MapUpdate); ok && (mu.Map == target || (types.Identical(mu.Map.Type(), target.Type()) && c.P.valueOrigins(mu.Map).intersects(c.P.valueOrigins(target)))) {
 						n++
-						k, isS := constString(mu.Key)
-						if !isS {
+						kc, isC := mu.Key.(*ssa.Const)
+						if !isC || kc.Value == nil {
 							return nil, nil, false
 						}
-						keys = append(keys, k)
+						if bv, isB := constBool(mu.Value); isB && !bv {
+							continue // an explicit false entry is not a member
+						}
+						keys = append(keys, constKey(kc))
 					}
 				}
 			}
@@ -987,7 +1036,7 @@ func (c *Ctx) membershipSet(cond ssa.Value) ([]string, ssa.Value, bool) {
 				}
 				if !a.neg && a.subj == cal.Params[0].Name() {
 					pos++
-					keys = append(keys, strings.Trim(a.konst, "\""))
+					keys = append(keys, a.konst)
 				}
 			}
 			if pos != 1 {
@@ -999,4 +1048,37 @@ func (c *Ctx) membershipSet(cond ssa.Value) ([]string, ssa.Value, bool) {
 		return keys, x.Call.Args[0], len(keys) > 0
 	}
 	return nil, nil, false
+}
+
+// setsVehicleDescriptor: a call of the extension's own helper that installs a vehicle descriptor on the entity (a
+// nycttrips function or interface method taking a *proto.VehicleDescriptor).
+func setsVehicleDescriptor(call *ssa.Call) bool {
+	var sig *types.Signature
+	if call.Call.IsInvoke() {
+		sig, _ = call.Call.Method.Type().(*types.Signature)
+		if call.Call.Method.Pkg() == nil || !strings.HasSuffix(call.Call.Method.Pkg().Path(), "/nycttrips") {
+			return false
+		}
+	} else if cal := call.Call.StaticCallee(); cal != nil && strings.HasSuffix(fnPkgPath(cal), "/nycttrips") {
+		sig = cal.Signature
+	}
+	if sig == nil {
+		return false
+	}
+	for i := 0; i < sig.Params().Len(); i++ {
+		if shortType(sig.Params().At(i).Type()) == "*proto.VehicleDescriptor" {
+			return true
+		}
+	}
+	return false
+}
+
+// hasGuardClass: some guard with the sign is a call of a module function of the given signature class.
+func hasGuardClass(b *binder, gs []string, sign, class string) bool {
+	for _, g := range gs {
+		if strings.HasPrefix(g, sign) && b.headClass(g[1:]) == class {
+			return true
+		}
+	}
+	return false
 }
